@@ -394,16 +394,46 @@ def rule_fragment_loops(ctx, rule_id="C01.3-fragment-and-chop-loops"):
     # --- sendData chop loop ---------------------------------------------------------------
     fn = ctx.program.func(f"{WSP}.sendData")
     ctx.analysed(fn)
-    loops = [n for n in walk_no_defs(fn.node) if isinstance(n, ast.While)]
-    ctx.require(len(loops) == 1, "sendData: chop loop not found")
-    roles = _slice_loop(ctx, fn, loops[0], "data", "")
+    # cell-wise (sa.core.tiny) over (octets to write, chop size): the pieces queued tile the data in order, none is longer than the chop size, at
+    # least one piece (possibly empty) is queued, every piece is marked for a synchronous write, and the queue is triggered once
+    from ..core.tiny import Tiny, Sym, Buf
+    probs, ncell = [], 0
+    body = [x for x in fn.node.body if not (isinstance(x, ast.Expr) and isinstance(x.value, ast.Constant))]
+    prm = fn.params()
+    try:
+        for n_ in (0, 1, 5, 10):
+            for cs in (1, 3, 5, 20):
+                queue, trig = [], []
+
+                def orc(f_, a_, k_=None):
+                    if f_ == "self._trigger":
+                        trig.append(len(queue))
+                        return None
+                    return Sym(f"<{f_}>")
+                env = {"self": Sym("protocol"), "self.send_queue": queue, prm[1]: Buf(0, n_), prm[2]: False, prm[3]: cs, "self.log": Sym("log"), "self.transport": Sym("tcp")}
+                r = Tiny(env, default_call=orc, opaque_globals=True).run(body)
+                ncell += 1
+                tag = f"{n_} octets, chop size {cs}"
+                if r[0] == "raise":
+                    probs.append(f"{tag}: raises {r[1]}")
+                    continue
+                pieces = [q[0] if isinstance(q, (list, tuple)) and q else q for q in queue]
+                pos, okp = 0, bool(pieces)
+                for pc in pieces:
+                    if not isinstance(pc, Buf) or len(pc) > cs or (len(pc) and pc.lo != pos):
+                        okp = False
+                        break
+                    pos += len(pc)
+                if not okp or pos != n_ or (n_ and any(len(pc) == 0 for pc in pieces)) or any(not (isinstance(q, (list, tuple)) and len(q) == 2 and q[1] is True) for q in queue):
+                    probs.append(f"{tag}: queued {queue}, expected pieces of at most {cs} octets tiling the data in order (each marked sync)")
+                if trig != [len(queue)]:
+                    probs.append(f"{tag}: queue triggered {len(trig)} time(s) (after {trig} pieces), expected once after all pieces")
+    except AnalysisError as e:
+        raise AnalysisError(f"[{rule_id}] sendData outside the modelled subset: {e}")
+    ctx.ob(f"sendData: a chopped write queues pieces of at most the chop size that tile the data in order, then triggers the queue [{ncell} cells]", not probs, "; ".join(probs[:2]), fn.loc())
     g, mf, res = an.get(fn)
-    if roles:
-        loopnode = [n for n in g.stmt_nodes() if n.kind == "test" and n.ast is loops[0].test][0]
-        facts = mf.at(loopnode) or ()
-        ctx.ob("sendData: chop size > 0 when chopping", ("lt", ("c", 0), ("e", roles["S"]), True) in facts, "no `chopsize > 0` guard dominates the chop loop", fn.loc(loops[0]))
-        app = [c for s in loops[0].body for c in ast.walk(s) if isinstance(c, ast.Call) and norm.text(c.func) == "self.send_queue.append"]
-        ctx.ob("sendData: each piece appended to the send queue once", len(app) == 1, f"{len(app)} append sites in the chop loop", fn.loc(loops[0]))
+    chop_guard = [n for n in g.stmt_nodes() if n.kind == "test" and ("lt", ("c", 0), ("e", prm[3]), True) in norm.atoms(n.ast, True, res)]
+    ctx.ob("sendData: chop size > 0 when chopping", bool(chop_guard), "no `chopsize > 0` guard", fn.loc())
 
 
 def rule_buffer_splits(ctx):
@@ -809,5 +839,7 @@ def run(ctx):
     rule_send_queue(ctx)
     rule_adapters(ctx)
     rule_prepared(ctx)
-    from .c02 import rule_progress
+    from .c02 import rule_progress, rule_frame_end
     rule_progress(ctx, "C01.7-complete-frames-need-no-further-octets")
+    # reassembly: a fragmented message with control frames between its fragments (RFC 6455 5.4) must still arrive whole
+    rule_frame_end(ctx, "C01.10-reassembly-across-interleaved-control-frames")
